@@ -1,0 +1,59 @@
+//go:build verif
+
+// Contracts for the deductive verifier in /verif (govc), helper "gen" (C18, x/evm part): the keeper functions genesis
+// export / import is built from, over the raw module store (see x/evm/types/verif_contracts_gen.go for the key layout).
+// Comment-only.
+package keeper
+
+//@ import sdk "github.com/cosmos/cosmos-sdk/types"
+//@ import common "github.com/ethereum/go-ethereum/common"
+//@ import evmtypes "github.com/EscanBE/evermint/v12/x/evm/types"
+
+// ---------------------------------------------------------------------------------------------
+// keeper.go GetAccountStorage / statedb.go ForEachStorage. The storage records of an address are the entries of the
+// module store whose key starts with [2] ++ address; the store's ordered prefix iterator enumerates them
+// (prelude/48_cpc2_iterator.spec: kvSeqLen / kvSeqKey are FUNCTIONS of the store's domain and the prefix). GetAccountStorage
+// returns EXACTLY that list, in that order: entry i is (slot = last 32 bytes of the i-th key, value = the bytes stored
+// there), both rendered as 0x-hex text. ForEachStorage has no callable contract of its own in this check: its body is
+// inlined into GetAccountStorage and its loop carries the invariant below ("loop 1 of ForEachStorage").
+// ---------------------------------------------------------------------------------------------
+//@ func (k Keeper) GetAccountStorage(ctx sdk.Context, address common.Address) (storage evmtypes.Storage)
+//@   requires k.storeKey != nil
+//@   modifies nothing
+//@   ensures[C18.evm_storage_list_complete] len(storage) == kvSeqLen(kvHas[kvId(layer(ctx), payload(k.storeKey))], evmStoragePrefixB(address))
+//@   ensures[C18.evm_storage_list_faithful] forall i int :: (0 <= i && i < len(storage)) ==> (storage[i].Key == hashOfBytes(kvSeqKey(kvHas[kvId(layer(ctx), payload(k.storeKey))], evmStoragePrefixB(address), i)).String() && storage[i].Value == hashOfBytes(kvVal[kvId(layer(ctx), payload(k.storeKey))][kvSeqKey(kvHas[kvId(layer(ctx), payload(k.storeKey))], evmStoragePrefixB(address), i)]).String())
+//@   ensures cap(storage) == 0 || fresh(base(storage))
+//@   panics never
+//@ loop 1 of ForEachStorage
+//@   fresh_writes
+//@   invariant iterator != nil && fresh(payload(iterator)) && itKv(payload(iterator)) == kvId(layer(ctx), payload(k.storeKey)) && itPrefix(payload(iterator)) == evmStoragePrefixB(address) && 0 <= itPos[payload(iterator)] && itPos[payload(iterator)] <= kvSeqLen(kvHas[kvId(layer(ctx), payload(k.storeKey))], evmStoragePrefixB(address))
+//@   invariant len(storage) == itPos[payload(iterator)] && (cap(storage) == 0 || fresh(base(storage))) && (forall i int :: (0 <= i && i < len(storage)) ==> (storage[i].Key == hashOfBytes(kvSeqKey(kvHas[kvId(layer(ctx), payload(k.storeKey))], evmStoragePrefixB(address), i)).String() && storage[i].Value == hashOfBytes(kvVal[kvId(layer(ctx), payload(k.storeKey))][kvSeqKey(kvHas[kvId(layer(ctx), payload(k.storeKey))], evmStoragePrefixB(address), i)]).String()))
+
+// ---------------------------------------------------------------------------------------------
+// statedb.go — point accessors over prefix stores (prelude/4b_gen_evm_store.spec), VERIFIED against the raw module store.
+// ---------------------------------------------------------------------------------------------
+//@ func (k *Keeper) GetCode(ctx sdk.Context, codeHash common.Hash) (code []byte)
+//@   requires k != nil && k.storeKey != nil
+//@   modifies nothing
+//@   ensures[C18.evm_get_code] bytes(code) == evmCodeOf(kvHas[kvId(layer(ctx), payload(k.storeKey))], kvVal[kvId(layer(ctx), payload(k.storeKey))], codeHash)
+//@   ensures len(code) == 0 || fresh(base(code))
+//@   panics never
+
+// ---------------------------------------------------------------------------------------------
+// keeper.go IsEmptyAccount (C15 empty-account sweep, C10 / C04: what the sweep may burn) — the CONCRETE method behind the
+// assumed interface summary (k EvmKeeper) IsEmptyAccount of x/evm/vm/verif_contracts.go, VERIFIED: an account is reported
+// empty exactly when it has an empty code hash, a zero balance in EVERY denomination, sequence 0 (or no account record)
+// and no storage record (the store's iterator yields nothing under [2] ++ address). ForEachStorage is inlined with the
+// closure (it stops at the first record: the loop never takes its back edge).
+// ---------------------------------------------------------------------------------------------
+//@ func (k *Keeper) IsEmptyAccount(ctx sdk.Context, addr common.Address) bool
+//@   requires k != nil && k.storeKey != nil && k.bankKeeper != nil
+//@   modifies nothing
+//@   ensures[C15.is_empty_code_hash,C10.is_empty_code_hash,C04.is_empty_code_hash] result ==> isEmptyCodeHash(evmCodeHash[layer(ctx)][addrBytes(addr)])
+//@   ensures[C15.is_empty_all_denoms,C10.is_empty_all_denoms,C04.is_empty_all_denoms] result ==> (forall den string :: bankBal[layer(ctx)][addrBytes(addr)][den] == 0)
+//@   ensures[C15.is_empty_sequence,C10.is_empty_sequence,C04.is_empty_sequence] result ==> acctSeq[layer(ctx)][addrBytes(addr)] == 0
+//@   ensures[C15.is_empty_no_storage,C10.is_empty_no_storage,C04.is_empty_no_storage] result ==> kvSeqLen(kvHas[kvId(layer(ctx), payload(k.storeKey))], evmStoragePrefixB(addr)) == 0
+//@   ensures[C15.is_empty_iff,C10.is_empty_iff,C04.is_empty_iff] result == (isEmptyCodeHash(evmCodeHash[layer(ctx)][addrBytes(addr)]) && (forall den string :: bankBal[layer(ctx)][addrBytes(addr)][den] == 0) && acctSeq[layer(ctx)][addrBytes(addr)] == 0 && kvSeqLen(kvHas[kvId(layer(ctx), payload(k.storeKey))], evmStoragePrefixB(addr)) == 0)
+//@   panics never
+//@ loop 1 of ForEachStorage
+//@   invariant iterator != nil && fresh(payload(iterator)) && itKv(payload(iterator)) == kvId(layer(ctx), payload(k.storeKey)) && itPrefix(payload(iterator)) == evmStoragePrefixB(addr) && itPos[payload(iterator)] == 0 && !anyState
